@@ -28,6 +28,7 @@ type histParams struct {
 	Adversarial  bool `json:"adversarial"`   // C02: named tree + raw header/block events
 	StartUnknown bool `json:"start_unknown"` // start hash is a block the node has not seen at boot (pre-start mode)
 	ExtraDepth int  `json:"extra_depth"`
+	Prefix []string `json:"prefix,omitempty"` // events applied after the boot, before the explored history (a non-initial start state)
 	Plan   []planStep     `json:"plan,omitempty"`    // sched mode: deviations inserted at scheduling points
 	SelAlt map[string]int `json:"sel_alt,omitempty"` // sched mode: alternatives at multi-ready selects // explore this scenario deeper than the check's base depth
 }
@@ -71,6 +72,27 @@ func (w *World) applyEvent(ev string) bool {
 			k, _ = strconv.Atoi(p[1])
 		}
 		if !w.answerTrusted(k) {
+			return false
+		}
+		w.settle()
+	case "ansh", "ansb": // the oldest outstanding getheaders / every outstanding block request
+		if w.P == nil {
+			return false
+		}
+		done := false
+		for i := 0; i < len(w.P.pending); {
+			k := w.P.pending[i].kind
+			if (p[0] == "ansh" && k == "getheaders") || (p[0] == "ansb" && k == "block") {
+				w.answerTrusted(i)
+				done = true
+				if p[0] == "ansh" {
+					break
+				}
+				continue
+			}
+			i++
+		}
+		if !done {
 			return false
 		}
 		w.settle()
@@ -275,6 +297,22 @@ func (w *World) inSyncClause() {
 			return
 		}
 	}
+	// The notification must rest on what the peer said in this session: a headers message that
+	// stops short of the sender's tip (a full batch) says "there is more", so before the node may
+	// call itself in sync it must have consumed, on this connection, at least one headers message
+	// that reached the peer's tip of that moment (a short or empty answer, or an announcement).
+	// (Only at quiescent deliveries: under a scheduling deviation a message can be consumed and
+	// not yet handled.)
+	if w.plan != nil {
+		return
+	}
+	for i := range w.P.hdrMsgs {
+		if m := &w.P.hdrMsgs[i]; m.end <= consumed && m.reachedTip {
+			return
+		}
+	}
+	w.fail("C01", "in-sync-confirmed", "in-sync reported although every headers message consumed in this session stopped short of the peer's tip",
+		fmt.Sprintf("HandleInSync delivered at node tip %d on connection %d: of the %d headers messages the peer sent on it none that the node has consumed reached the peer's tip (peer tip now %d)", w.Node.LastHeight(ctx), w.P.gen, len(w.P.hdrMsgs), len(w.Best)-1))
 }
 
 // chainInvariants (C02): linkage, inverse maps, tip-only growth; called at quiescent points.
@@ -367,8 +405,12 @@ func runHist(p histParams, hist []string, withDrain bool) *histRun {
 		w.buildAdversarialTree()
 		w.shadowCheck()
 	}
-	for _, ev := range hist {
+	for i, ev := range append(append([]string(nil), p.Prefix...), hist...) {
 		if len(w.viol) > 0 || w.livelock || len(w.S.Panics()) > 0 {
+			break
+		}
+		if i < len(p.Prefix) && !w.eventEnabled(ev) {
+			w.fail(p.Prop, "prefix", "scenario prefix not applicable", fmt.Sprintf("prefix event %d (%s) is not enabled", i, ev))
 			break
 		}
 		w.applyEvent(ev)
@@ -436,6 +478,16 @@ func (w *World) eventEnabled(ev string) bool {
 			k, _ = strconv.Atoi(p[1])
 		}
 		return w.P != nil && len(w.P.pending) > k
+	case "ansh", "ansb":
+		if w.P == nil {
+			return false
+		}
+		for _, r := range w.P.pending {
+			if (p[0] == "ansh" && r.kind == "getheaders") || (p[0] == "ansb" && r.kind == "block") {
+				return true
+			}
+		}
+		return false
 	case "reorg":
 		d, _ := strconv.Atoi(p[1])
 		return d < len(w.Best)-1
